@@ -1,7 +1,10 @@
 """C06 — braille renders every operand of the expression.
 Unambiguous histories: every operand is a distinct decimal literal NN<mark>DD written with the session's decimal mark, so a lost operand
 is read straight off get_braille(""): the literal's cell run in the code's PUBLISHED digit cells (c06_braille.CODES, not MathCAT's tables)
-must occur contiguously; for the text codes the literal occurs verbatim."""
+must occur contiguously; for the text codes the literal occurs verbatim.
+Literals are decimals and whole numbers over all ten digits (c06_braille.NumberBook); where a code publishes a second digit form (dropped
+digits of CMU / Swedish / Vietnam) the oracle decodes that form as well.  Two phases: one session per configuration, and sessions that
+switch between the configurations in varied orders (the braille tables are per-session caches that are re-read on a switch)."""
 import os
 import random
 import re
@@ -20,12 +23,19 @@ PROP = "C06"
 
 def occurrences(code, lit, braille):
     """how often the literal is rendered in the braille string (None: the published table has no cell for its decimal mark)"""
-    if B.CODES[code]["kind"] == "text":
+    info = B.CODES[code]
+    if info["kind"] == "text":
         return B.count_verbatim(lit, braille)
     run = B.literal_cells(code, lit)
     if run is None:
         return None
-    return B.mask_highlight(braille).count(run)
+    s = B.mask_highlight(braille)
+    n = s.count(run)
+    if info["dropped"]:
+        low = B.literal_cells(code, lit, dropped=True)
+        if low != run:
+            n += s.count(low)
+    return n
 
 
 def evaluate(sess, xml):
@@ -66,7 +76,7 @@ def judge_tree(sess, tree):
         if n < lits.count(lit):
             lost.append(lit)
     if lost:
-        shown = ["%s=%s" % (l, B.literal_cells(code, l) or l) for l in lost]
+        shown = ["%s=%s%s" % (l, B.literal_cells(code, l) or l, "|" + B.literal_cells(code, l, True) if B.CODES[code].get("dropped") else "") for l in lost]
         return "lost-operand", lost, "braille %r lacks %s" % (br["v"][:500], shown), res
     return None, [], "", res
 
@@ -197,66 +207,239 @@ def make_sig(kind, tree, cfg, lost, detail_full):
     return "%s | %s | %s" % (kind, error_root(detail_full), B.cfg_sig(cfg))
 
 
+def make_expression(rng, decimal):
+    tb = B.NumberBook(rng, decimal=decimal, max_depth=rng.choice([2, 3, 4]),
+                      features=B.NumberBook.focused_pool(rng) if rng.random() < 0.15 else None)
+    return tb.expression()
+
+
+def observe(st, cfg, name, tree, lits, res, i, tag=""):
+    """evidence: what was judged, and which digits were planted in which operand position class"""
+    if res is not None and res[0]["r"] == "ok" and res[1]["r"] == "ok":
+        st.nontrivial.add(core.h16(tree.shape() + name + tag))
+        st.count("literals_checked", len(lits))
+        st.count("literals_checked_" + cfg["code"], len(lits))
+        st.count("whole_number_literals", sum(1 for l in lits if l.isdigit()))
+        for node, path in tree.walk():
+            if node.tag == "mn" and path and B.LITERAL_RX.fullmatch(node.text or ""):
+                cls = B.position_class(tree, path)
+                for d in set(node.text):
+                    if d.isdigit():
+                        st.add("digitpos", "%s|%s|%s" % (cfg["code"], cls, d))
+    elif res is not None and res[0]["r"] != "ok":
+        st.count("set_mathml_" + res[0]["r"])
+    st.add("configs", name + "/" + cfg["lang"])
+    if i == 0 and res is not None and res[1]["r"] == "ok":
+        st.sample({"config": name + tag, "mathml": tree.xml()[:600], "literals": lits, "braille": res[1]["v"][:300]}, limit=4)
+
+
+def report_plain(st, seen_pre, cfg, tree, kind, lost, detail):
+    """a violation that shows in a session of its own: pre-cluster, shrink, sign"""
+    pre = (kind, cfg["code"], blame_keys(tree, lost) if lost else error_root(detail))
+    st.count("raw_violations_" + kind)
+    if pre in seen_pre:
+        return
+    seen_pre.add(pre)
+    mcfg, small = minimise(cfg, tree, kind)
+    s3 = B.Session(mcfg)
+    try:
+        k3, lost3, detail3, _ = judge_tree(s3, small)
+    finally:
+        s3.close()
+    if k3 != kind:
+        k3, lost3, detail3, mcfg, small = kind, lost, detail, cfg, tree
+    sig = make_sig(kind, small, mcfg, lost3, detail3)
+    st.violations.append(core.violation(kind, sig, {"cfg": mcfg, "mathml": small.xml()},
+                                        "minimal witness " + small.xml() + " | " + detail3[:700]))
+
+
+def collect_rule_hits(st, sess):
+    try:
+        hits = sess.ensure().call("rule_hits")["v"]
+        for k in hits:
+            t = k.split("|")
+            if t[0] == "Braille":
+                st.add("rules_fired", "%s|%s|%s" % (t[1].split("/Rules/")[-1], t[2], t[3]))
+    except Exception:
+        pass
+
+
+# ---------------------------------------------------------------------------------------------
+# sessions that switch configuration
+# ---------------------------------------------------------------------------------------------
+WARM_UP = "<math><mrow><mn>12</mn><mo>+</mo><mfrac><mi>x</mi><mn>3</mn></mfrac></mrow></math>"
+
+
+def switch_to(sess, cfg):
+    """move the running session to cfg (all code preferences set explicitly); False when that failed"""
+    r = sess.batch(B.switch_ops(cfg) + [("get_preference", "DecimalSeparators")], timeout=60)
+    if r is None or any(x["r"] != "ok" for x in r):
+        return False
+    sess.cfg = cfg
+    sess.decimal = (r[-1].get("v") or ".")[0]
+    return True
+
+
+def judge_with_history(history, cfg, tree):
+    """fresh session; every configuration of the history is selected and used once (rules and tables get loaded), then cfg is selected and
+    the tree is judged"""
+    first = history[0] if history else cfg
+    sess = B.Session({"code": first["code"], "lang": first["lang"]})
+    try:
+        sess.ensure()
+        for h in history:
+            if not switch_to(sess, h):
+                return "crash", [], "cannot select %s" % B.cfg_sig(h), None
+            if sess.batch([("set_mathml", WARM_UP), ("get_braille", "")], timeout=60) is None:
+                return "crash", [], "driver died in warm-up", None
+        if not switch_to(sess, cfg):
+            return "crash", [], "cannot select %s" % B.cfg_sig(cfg), None
+        return judge_tree(sess, tree)
+    finally:
+        sess.close()
+
+
+def history_sig(history):
+    return ">".join(B.cfg_sig(h) for h in history) or "-"
+
+
+def report_history(st, seen_pre, history, cfg, tree, kind, lost, detail):
+    """a violation that does NOT show in a session of its own: the history of configurations is part of the witness"""
+    st.count("raw_violations_after_switch_" + kind)
+    pre = (kind, cfg["code"], "after", history[-1]["code"] if history else "-")
+    if pre in seen_pre:
+        return
+    seen_pre.add(pre)
+    k0 = judge_with_history(history, cfg, tree)[0]
+    if k0 != kind:
+        # the warm-up expressions do not rebuild the state: keep the violation, un-minimised, under a signature that says so
+        sig = "%s | after-switch, not reproduced from the configuration history alone | %s" % (kind, B.cfg_sig(cfg))
+        st.violations.append(core.violation(kind, sig, {"cfg": cfg, "mathml": tree.xml(), "history": history},
+                                            "after %s: %s | %s" % (history_sig(history), tree.xml()[:600], detail[:500])))
+        return
+    hist = shrink.shrink_list(history, lambda h: judge_with_history(h, cfg, tree)[0] == kind, budget=30)
+    small = shrink.shrink_tree(tree, lambda t: judge_with_history(hist, cfg, t)[0] == kind, budget=140,
+                               leaf_factory=lambda: [gen.mn("1907"), gen.mi("x")])
+    for i in range(len(hist)):                                   # code preferences of the history that do not matter are dropped
+        plain = {"code": hist[i]["code"], "lang": hist[i]["lang"]}
+        if plain != hist[i]:
+            cand = hist[:i] + [plain] + hist[i + 1:]
+            if judge_with_history(cand, cfg, small)[0] == kind:
+                hist = cand
+    if len(hist) == 1:                                            # one cause, one witness: the first code (in a fixed order) that also does it
+        for code in sorted(B.CODES):
+            if code == hist[0]["code"]:
+                break
+            cand = [{"code": code, "lang": B.CODES[code]["langs"][0]}]
+            if code != cfg["code"] and judge_with_history(cand, cfg, small)[0] == kind:
+                hist = cand
+                break
+    if cfg.get("extra"):                                          # and the plain preference set of the final code, when that is enough
+        plain_cfg = {"code": cfg["code"], "lang": cfg["lang"]}
+        if judge_with_history(hist, plain_cfg, small)[0] == kind:
+            cfg = plain_cfg
+    k3, lost3, detail3, _ = judge_with_history(hist, cfg, small)
+    if k3 != kind:
+        hist, small, lost3, detail3 = history, tree, lost, detail
+    sig = make_sig(kind, small, cfg, lost3, detail3) + " | after=" + history_sig(hist)
+    st.violations.append(core.violation(kind, sig, {"cfg": cfg, "mathml": small.xml(), "history": hist},
+                                        "session used %s, then %s: minimal witness %s | %s" % (history_sig(hist), B.cfg_sig(cfg), small.xml(), detail3[:600])))
+
+
+def run_tour(st, rng, tour, per_step, deadline, seen_pre):
+    sess = B.Session(tour[0])
+    history = []
+    try:
+        sess.ensure()
+        for step, cfg in enumerate(tour):
+            if time.time() > deadline:
+                st.count("stopped_by_time_budget")
+                break
+            if step and not switch_to(sess, cfg):
+                st.inconclusive += 1
+                st.count("switch_failed")
+                break
+            name = B.cfg_sig(cfg)
+            if history:
+                st.add("switches", "%s>%s" % (history[-1]["code"], cfg["code"]))
+            for i in range(per_step):
+                tree, lits = make_expression(rng, sess.decimal)
+                kind, lost, detail, res = judge_tree(sess, tree)
+                if res is None:
+                    st.inconclusive += 1
+                    return                                   # the session (and its history) is gone
+                st.evaluations += 1
+                st.count("evaluations_after_switch" if history else "evaluations_first_configuration")
+                observe(st, cfg, name, tree, lits, res, i if history else 1, tag=" after " + history[-1]["code"] if history else "")
+                if kind is None or kind == "crash":
+                    continue
+                alone = B.Session(cfg)
+                try:
+                    alone.ensure()
+                    t1 = B.set_decimal(tree.copy(), alone.decimal)
+                    k1, lost1, detail1, _ = judge_tree(alone, t1)
+                finally:
+                    alone.close()
+                if k1 == kind:
+                    report_plain(st, seen_pre, cfg, t1, kind, lost1, detail1)
+                else:
+                    report_history(st, seen_pre, list(history), cfg, tree, kind, lost, detail)
+            history.append(cfg)
+        collect_rule_hits(st, sess)
+    finally:
+        sess.close()
+
+
 def shard(spec):
     st = core.Stats()
     rng = random.Random(spec["seed"])
     deadline = time.time() + spec["time_budget"]
     seen_pre = set()
-    for cfg in spec["configs"]:
+    for item in spec["items"]:
+        if item["part"] == "tour":
+            run_tour(st, rng, item["tour"], item["per_step"], deadline, seen_pre)
+            continue
+        cfg = item["cfg"]
         sess = B.Session(cfg)
         name = B.cfg_sig(cfg)
         try:
             sess.ensure()
-            for i in range(spec["per_config"]):
+            for i in range(item["n"]):
                 if time.time() > deadline:
                     st.count("stopped_by_time_budget")
                     break
-                tb = gen.Textbook(rng, decimal=sess.decimal, max_depth=rng.choice([2, 3, 4]))
-                tree, lits = tb.expression()
+                tree, lits = make_expression(rng, sess.decimal)
                 kind, lost, detail, res = judge_tree(sess, tree)
                 st.evaluations += 1
-                if res is not None and res[0]["r"] == "ok" and res[1]["r"] == "ok":
-                    st.nontrivial.add(core.h16(tree.shape() + name))
-                    st.count("literals_checked", len(lits))
-                    st.count("literals_checked_" + cfg["code"], len(lits))
-                elif res is not None and res[0]["r"] != "ok":
-                    st.count("set_mathml_" + res[0]["r"])
-                st.add("configs", name + "/" + cfg["lang"])
-                if i == 0 and res is not None and res[1]["r"] == "ok":
-                    st.sample({"config": name, "mathml": tree.xml()[:600], "literals": lits, "braille": res[1]["v"][:300]}, limit=3)
+                observe(st, cfg, name, tree, lits, res, i)
                 if kind is None:
                     continue
                 if kind == "crash":
                     st.inconclusive += 1
                     continue
-                pre = (kind, cfg["code"], blame_keys(tree, lost) if lost else error_root(detail))
-                st.count("raw_violations_" + kind)
-                if pre in seen_pre:
-                    continue
-                seen_pre.add(pre)
-                mcfg, small = minimise(cfg, tree, kind)
-                s3 = B.Session(mcfg)
-                try:
-                    k3, lost3, detail3, _ = judge_tree(s3, small)
-                finally:
-                    s3.close()
-                if k3 != kind:
-                    k3, lost3, detail3, mcfg, small = kind, lost, detail, cfg, tree
-                sig = make_sig(kind, small, mcfg, lost3, detail3)
-                st.violations.append(core.violation(kind, sig, {"cfg": mcfg, "mathml": small.xml()},
-                                                    "minimal witness " + small.xml() + " | " + detail3[:700]))
-            # coverage of braille rules reached in this configuration
-            try:
-                hits = sess.ensure().call("rule_hits")["v"]
-                for k in hits:
-                    t = k.split("|")
-                    if t[0] == "Braille":
-                        st.add("rules_fired", "%s|%s|%s" % (t[1].split("/Rules/")[-1], t[2], t[3]))
-            except Exception:
-                pass
+                report_plain(st, seen_pre, cfg, tree, kind, lost, detail)
+            collect_rule_hits(st, sess)
         finally:
             sess.close()
     return st.to_dict()
+
+
+def make_tours(rng, cfgs, rounds, steps_per_tour):
+    """tours through the configurations such that every ordered pair of CODES occurs as a direct switch in every round"""
+    plain = [c for c in cfgs if not any(k in c.get("extra", {}) for k in B.SEPARATOR_PREFS)]
+    by_code = {}
+    for c in plain:
+        by_code.setdefault(c["code"], []).append(c)
+    codes = sorted(by_code)
+    seq = []
+    for _ in range(rounds):
+        pairs = [(a, b) for a in codes for b in codes if a != b]
+        rng.shuffle(pairs)
+        for a, b in pairs:
+            if not seq or seq[-1]["code"] != a:
+                seq.append(rng.choice(by_code[a]))
+            seq.append(rng.choice(by_code[b]))
+    return [seq[i:i + steps_per_tour + 1] for i in range(0, len(seq), steps_per_tour)]      # tours overlap by one step: no pair is lost
 
 
 def pred_row_rule_arity(v, params):
@@ -297,9 +480,15 @@ core.PREDICATES["c06_row_rule_arity"] = pred_row_rule_arity
 
 def replay(witness):
     cfg = witness["cfg"]
+    tree = B.from_xml(witness["mathml"])
+    history = witness.get("history")
+    if history:
+        kind, lost, detail, res = judge_with_history(history, cfg, tree)
+        if kind in (None, "crash"):
+            return []
+        return [core.violation(kind, make_sig(kind, tree, cfg, lost, detail) + " | after=" + history_sig(history), witness, detail[:700])]
     sess = B.Session(cfg)
     try:
-        tree = B.from_xml(witness["mathml"])
         kind, lost, detail, res = judge_tree(sess, tree)
         if kind in (None, "crash"):
             return []
@@ -308,36 +497,60 @@ def replay(witness):
         sess.close()
 
 
+def digit_coverage(stats):
+    """summary of the planted digits per (code, operand position class); the raw set is dropped from the evidence"""
+    raw = stats.sets.pop("digitpos", set())
+    table = {}
+    for e in raw:
+        code, cls, d = e.split("|")
+        table.setdefault((code, cls), set()).add(d)
+    full = sum(1 for v in table.values() if len(v) == 10)
+    lacking = sorted("%s %s lacks %s" % (k[0], k[1], "".join(sorted(set("0123456789") - v))) for k, v in table.items() if len(v) < 10)
+    classes = sorted(set(k[1] for k in table))
+    return {"position_classes": classes, "code_x_position_class_pairs": len(table), "pairs_with_all_ten_digits": full,
+            "pairs_lacking_a_digit": lacking[:40]}
+
+
 def run(tier, seed):
     t0 = time.time()
     core.build_driver("native")
     rng = random.Random(core.sub_seed(seed, PROP))
     cfgs = B.all_cfgs(operand_oracle=True)
     known, unknown = B.shipped_codes()
-    # every configuration is split into several work items so that all cores are used and every configuration is visited
+    quick = tier == "quick"
     nsh = core.NPROC
-    per_config = int(os.environ.get("C06_PER_CONFIG", "0")) or (2400 if tier == "quick" else 90000)
-    pieces = 4 if tier == "quick" else 16
-    items = [dict(c) for c in cfgs for _ in range(pieces)]
+    per_config = int(os.environ.get("C06_PER_CONFIG", "0")) or (2400 if quick else 90000)
+    pieces = 4 if quick else 16
+    items = [{"part": "single", "cfg": dict(c), "n": max(1, per_config // pieces)} for c in cfgs for _ in range(pieces)]
+    # sessions that switch between configurations: every ordered pair of codes is a direct switch at least `rounds` times
+    tours = make_tours(rng, cfgs, rounds=2 if quick else 12, steps_per_tour=8)
+    items += [{"part": "tour", "tour": t, "per_step": 16 if quick else 160} for t in tours]
     rng.shuffle(items)
-    budget = 70 if tier == "quick" else 1500
-    specs = [{"seed": core.sub_seed(seed, PROP, i), "configs": items[i::nsh], "per_config": max(1, per_config // pieces), "time_budget": budget}
-             for i in range(nsh)]
+    budget = 70 if quick else 1500
+    specs = [{"seed": core.sub_seed(seed, PROP, i), "items": items[i::nsh], "time_budget": budget} for i in range(nsh)]
     results = core.run_shards(shard, specs)
     stats, errors = core.Stats.merge(results)
+    cover = digit_coverage(stats)
     known_r, fixed_failures, extra_v = core.replay_findings(PROP, replay)
     stats.violations.extend(extra_v)
+    ncodes = len(set(c["code"] for c in cfgs))
     return core.conclude(
         PROP, tier, seed, "exploration", stats,
-        {"configurations_total": len(cfgs), "codes_judged": known, "codes_shipped_without_published_table_here": unknown},
-        ["a planted literal is a 2-digit.2-digit decimal written with the session's own decimal mark (read back from the DecimalSeparators preference)",
+        {"configurations_total": len(cfgs), "codes_judged": known, "codes_shipped_without_published_table_here": unknown,
+         "switching_tours": len(tours), "ordered_code_pairs_possible": ncodes * (ncodes - 1), "planted_digit_coverage": cover},
+        ["a planted literal is a 2-digit.2-digit decimal written with the session's own decimal mark (read back from the DecimalSeparators preference) "
+         "or a whole number of 3-4 digits; all ten digits are drawn",
          "digit and decimal-sign cells are the published ones of each code (Nemeth lower digits + dots 46; UEB/CMU/Vietnam/Swedish upper digits + the "
-         "code's decimal sign), cross-checked once against tests/braille; CMU and Swedish may also write a literal in lower-cell digits (numeric fractions)",
+         "code's decimal sign), cross-checked once against tests/braille; for CMU, Swedish and Vietnam a literal written in dropped (lower-cell) digits "
+         "is decoded as well (numeric fractions, divisors, drop numbers)",
          "operands already missing from the MathML returned by set_mathml are C01's; set_mathml failures are C08's",
-         "preferences that legitimately change digit shapes (Vietnam_UseDropNumbers=true) are exercised by C07 only"],
+         "in a switching session every code-specific preference is set explicitly at each switch; separator-preference variants are left to the "
+         "one-configuration sessions"],
         t0,
-        rule="random textbook-grammar expressions (%d construct kinds, depth<=4) with a distinct decimal literal at every operand position, for every shipped braille "
-             "code with the language its tests pair with it and each code-specific preference set; oracle: the literal's published cell run (text codes: the literal "
-             "itself) occurs in get_braille(\"\") as often as in the expression; non-trivial = set_mathml and get_braille succeeded and the braille was judged; "
-             "distinct by (expression shape, configuration)" % len(gen.Textbook.CONSTRUCTS),
+        rule="random textbook-grammar expressions (%d construct kinds incl. numeric fractions, 3-child 'number / number' rows, mixed numbers, numeric scripts, "
+             "depth<=4) with a distinct decimal or whole-number literal at every operand position, (1) one session per shipped braille code x language x "
+             "code-specific preference set and (2) sessions that switch through the configurations so that every ordered pair of codes is a direct switch; "
+             "oracle: the literal's published cell run (upper or, where the code has them, dropped digits; text codes: the literal itself) occurs in "
+             "get_braille(\"\") as often as in the expression; non-trivial = set_mathml and get_braille succeeded and the braille was judged; distinct by "
+             "(expression shape, configuration, previous code)" % len(B.NumberBook.CONSTRUCTS),
         min_nontrivial=300, harness_errors=errors, known_replayed=known_r, fixed_failures=fixed_failures)
